@@ -6,9 +6,11 @@ other method under test: only attribute reads and type() checks.
 """
 import pathlib
 
-MAX_INT = 10 ** 8
+MAX_INT = 2 ** 31 - 1          # ints: everything TLC can hold (PyVal.tla works on <<floor, eighths>> pairs)
+MAX_FLOAT8 = 2 ** 30 - 8          # floats: |value| * 8 below 2^30
 ALPHABET = set(
     "abcdefghijklmnopqrstuvwxyzABCDEFGHIJKLMNOPQRSTUVWXYZ0123456789 _-+./\\<>&\"'`:,()[]{}=#!?*|@;~^$\n"
+    "\t\r\x0b\x0c\x1c\x1d\x1e\x1f"
 )
 TYPE_INDEX = {int: 1, float: 2, str: 3, list: 4, dict: 5, bool: 6, type(None): 7, pathlib.Path: 8, tuple: 9}
 INDEX_TYPE = {v: k for k, v in TYPE_INDEX.items()}
@@ -50,7 +52,7 @@ def enc_val(x, depth=0):
         if x != x or x in (float("inf"), float("-inf")):
             raise Unencodable("nan/inf")
         e = x * 8
-        if e != int(e) or abs(e) > 8 * MAX_INT:
+        if e != int(e) or abs(e) > MAX_FLOAT8:
             raise Unencodable("float off the 1/8 grid")
         return V("float", int(e))
     if isinstance(x, str):
